@@ -8,10 +8,11 @@ def cmd_setup(args):
     t = time.time()
     S.ensure_mir('lightning')
     S.ensure_oracle('debug')
+    S.ensure_mir('lightning-invoice') if False else None
     from engine_k import runner as K
-    K.setup()
+    rc = K.setup()
     print('setup done in %.1fs' % (time.time() - t))
-    return 0
+    return rc
 
 
 def cmd_check(args):
